@@ -111,6 +111,10 @@ func newCronSpec(rng *mon.RNG) *cronSpec {
 	return s
 }
 
+func (s *cronSpec) lateRefMode() int {
+	return 1
+}
+
 func (s *cronSpec) kind() string { return "cron" }
 func (s *cronSpec) desc() string { return s.descStr }
 func (s *cronSpec) sig(ref, got outcome) string {
@@ -449,18 +453,18 @@ func recycledDirty(pool *byteslicepool.ByteSlicePool, b []byte, info putInfo) (s
 }
 
 type roundPools struct {
-	shared [3]*byteslicepool.ByteSlicePool
-	mon    [3]*poolMon
-	viol   []func(rp roundPlan)
-	vmu    sync.Mutex
+	shared  [3]*byteslicepool.ByteSlicePool
+	minCaps [3]int
+	mon     [3]*poolMon
+	viol    []func(rp roundPlan)
+	vmu     sync.Mutex
 }
 
-var sharedMinCaps = [3]int{16, 300, 5000}
-
-func newRoundPools() *roundPools {
-	p := &roundPools{}
+func newRoundPools(round int) *roundPools {
+	// the third shared pool has a MinCap that no pool of this process had before
+	p := &roundPools{minCaps: [3]int{16, 300, 4000 + (round*37)%3000}}
 	for i := range p.shared {
-		p.shared[i] = byteslicepool.NewByteSlicePool(sharedMinCaps[i])
+		p.shared[i] = byteslicepool.NewByteSlicePool(p.minCaps[i])
 		p.mon[i] = newPoolMon()
 	}
 	return p
@@ -528,7 +532,12 @@ type poolOp struct {
 }
 
 type poolSpec struct {
-	pool    int // 0-2 shared pool of the round, 3 a pool of this goroutine's own
+	pool int // 0-2 shared pool of the round, 3 a pool of this goroutine's own
+	// fresh: MinCap, Get capacities and Resize targets are derived from (round, loop)
+	// at run time - values no pool call of this process has used before, the same
+	// for every goroutine of the round, met for the first time in the concurrent
+	// phase (the reference run follows it)
+	fresh   bool
 	ownMin  int
 	g       int
 	ops     []poolOp
@@ -537,7 +546,7 @@ type poolSpec struct {
 }
 
 func newPoolSpec(rng *mon.RNG, g int) *poolSpec {
-	s := &poolSpec{pool: rng.Intn(4), ownMin: rng.PickInt(8, 64, 1024), g: g, d: pickDelay(rng)}
+	s := &poolSpec{pool: rng.Intn(4), ownMin: rng.PickInt(8, 64, 1024), g: g, d: pickDelay(rng), fresh: rng.Chance(1, 3)}
 	for i, n := 0, rng.Range(2, 6); i < n; i++ {
 		op := poolOp{get: rng.PickInt(0, 1, 16, 100, 300, 301, 4096, 5000, 20000), putLen: rng.PickInt(0, 250, 500, 1000, 1000)}
 		for j, m := 0, rng.Intn(4); j < m; j++ {
@@ -545,11 +554,17 @@ func newPoolSpec(rng *mon.RNG, g int) *poolSpec {
 		}
 		s.ops = append(s.ops, op)
 	}
-	s.descStr = fmt.Sprintf("pool pool=%d ownmincap=%d ops=%v pause=%s", s.pool, s.ownMin, s.ops, s.d)
+	s.descStr = fmt.Sprintf("pool pool=%d ownmincap=%d fresh-sizes=%v ops=%v pause=%s", s.pool, s.ownMin, s.fresh, s.ops, s.d)
 	return s
 }
 
 func (s *poolSpec) kind() string { return "pool" }
+func (s *poolSpec) lateRefMode() int {
+	if s.fresh {
+		return 2
+	}
+	return 0
+}
 func (s *poolSpec) desc() string { return s.descStr }
 func (s *poolSpec) sig(ref, got outcome) string {
 	return "byteslicepool/cycle-result-differs-under-concurrency"
@@ -589,10 +604,20 @@ func (s *poolSpec) run(c *gctx) outcome {
 		min  int
 	)
 	if s.pool < 3 {
-		pool, pm, min = c.pools.shared[s.pool], c.pools.mon[s.pool], sharedMinCaps[s.pool]
+		pool, pm, min = c.pools.shared[s.pool], c.pools.mon[s.pool], c.pools.minCaps[s.pool]
 	} else {
-		pool, min = byteslicepool.NewByteSlicePool(s.ownMin), s.ownMin
-		pm = newPoolMon()
+		min = s.ownMin
+		if s.fresh {
+			min = 1000 + ((c.round*4+c.loop)*131)%50000
+		}
+		pool, pm = byteslicepool.NewByteSlicePool(min), newPoolMon()
+	}
+	freshBase := 0
+	if s.fresh {
+		freshBase = 1000 + ((c.round*4+c.loop)*131)%50000
+		if c.conc {
+			c.count("pool.fresh_size_cycles", 1)
+		}
 	}
 	var notes []string
 	fail := func(sig, msg string, extra map[string]any) {
@@ -608,6 +633,14 @@ func (s *poolSpec) run(c *gctx) outcome {
 		}
 	}
 	for n, op := range s.ops {
+		if s.fresh {
+			op.get = freshBase + n*17
+			sizes := make([]int, len(op.sizes))
+			for i, sz := range op.sizes {
+				sizes[i] = freshBase + n*17 + sz%9000 - 4000 // below and above the capacity asked for
+			}
+			op.sizes = sizes
+		}
 		tag := uint64(c.round)<<48 ^ uint64(s.g)<<32 ^ uint64(c.loop+1)<<24 ^ uint64(n)<<8 ^ 0xA5
 		if c.conc {
 			tag ^= 1 << 63
